@@ -49,6 +49,7 @@ def run(tier):
             expand.failure_status_rule(chk, 'C08.xpand', prog, p, cfgname)
             expand.retry_termination_rule(chk, 'C08.xpand', prog, p, cfgname)
             expand.reuse_keeps_stack_rule(chk, 'C08.xpand', prog, p, cfgname)
+            expand.relaxed_capacity_rule(chk, 'C08.xpand', prog, p, cfgname)
         chk.clause('C08.query', 'R3 oracle group `query` (lwork = -1) of ?gssvx / ?gsisx (D3)')
         nl = 0
         for p in _drv.PRECS:
